@@ -131,6 +131,7 @@ func c06Filter(lg *c06Log, id, behaviour string) restful.FilterFunction {
 	mw := restful.HttpMiddlewareHandlerToFilter(func(next http.Handler) http.Handler {
 		return http.HandlerFunc(func(w http.ResponseWriter, r *http.Request) {
 			r2 := r.WithContext(context.WithValue(r.Context(), ctxKey{}, id))
+			pt("middleware") // a middleware may do anything (I/O, locking) before it passes control on
 			next.ServeHTTP(&markWriter{w, id}, r2)
 		})
 	})
